@@ -283,7 +283,10 @@ def _geom(name):
     n = int((~mask).sum())
     fm = np.full((n, 2), 0.5)
     fm[0, 0], fm[1, 1], fm[n - 2, 0], fm[n - 1, 1], fm[2, 1] = 0.75, 0.25, 0.125, 1.25, -0.5
-    return {"mask": mask, "psf": psf, "noise": noise, "sub": sub, "mesh": mesh, "mesh2": mesh2, "func": fm, "n": n}
+    # a second function list with a DIFFERENT parameter count (3): per-function column offsets / re-keying of the dict slots
+    fm3 = np.full((n, 3), 0.25)
+    fm3[0, 1], fm3[1, 2], fm3[2, 0], fm3[3, 1], fm3[n - 1, 0], fm3[n - 2, 2], fm3[4, 2] = 1.0, -0.75, 0.5, 1.5, -0.25, 0.75, 2.0
+    return {"mask": mask, "psf": psf, "noise": noise, "sub": sub, "mesh": mesh, "mesh2": mesh2, "func": fm, "func3": fm3, "n": n}
 
 
 def _dataset(g, data, noise):
@@ -327,6 +330,9 @@ def _linear_objs(g, mask, mix):
             elif ch == "F":
                 out.append(aa.m.MockLinearObjFuncList(parameters=2, grid=aa.Grid2D.from_mask(mask=mask),
                                                       mapping_matrix=g["func"].copy()))
+            elif ch == "G":
+                out.append(aa.m.MockLinearObjFuncList(parameters=3, grid=aa.Grid2D.from_mask(mask=mask),
+                                                      mapping_matrix=g["func3"].copy()))
             else:
                 raise KeyError(ch)
     return out
@@ -551,7 +557,7 @@ def case_seq(ctx, geom, mix, wt, subsets, k, noise_sym=False, check=False, donor
     ctx.set_inputs(**inputs)
     A, E = body_seq(inputs, **kw)
     known = None
-    if KNOWN_DVM in os.environ.get("VERIF_KNOWN", "").split(",") and not wt and "F" in mix and "M" in mix:
+    if KNOWN_DVM in os.environ.get("VERIF_KNOWN", "").split(",") and not wt and ("F" in mix or "G" in mix) and "M" in mix:
         # recorded defect: the mapping formalism returns Preloads.data_vector_mapper as the whole data vector
         known = {key: {KNOWN_DVM: z3.BoolVal(True)} for key in E
                  if "dvm" in key.split("|")[1].split("+") and key.rsplit("|", 1)[-1] in DVM_AFFECTED}
@@ -599,6 +605,9 @@ def _all_subsets():
 
 # cases with a data-dependent branch / non-linear terms (the engine retries `unknown` with up to 14x this timeout); on the
 # clean tree the branching cases have 2-3 paths - under a fault every differing inversion adds a fork, hence the path cap
+HETERO_MIXES = ("GFM", "FGM", "MGMF")
+HETERO_CORE = ((), ("curvature_matrix",), ("regularization_matrix",), ("operated_mapping_matrix",), ("w_tilde", "operated_mapping_matrix"),
+               ("regularization_matrix", "log_det_regularization_matrix_term"), ("curvature_matrix", "operated_mapping_matrix"), SLOTS)
 SLOW = {"timeout_ms": 12000, "max_paths": 24}
 
 
@@ -639,6 +648,24 @@ def cases(tier):
             out.append(("case_factory", {"geom": geom, "mix": mix}))
             if not quick and mix in ("M", "FM"):
                 out.append(("case_factory", {"geom": geom, "mix": mix, "check": True}, SLOW))
+    # (7) mixes in which EVERY further slot is non-trivial: two function lists with different parameter counts (3 and 2, both
+    # orders) and two mappers with different mesh sizes, so that per-object column offsets and the positional re-keying of the
+    # dict slots (linear_func_operated_mapping_matrix_dict, data_linear_func_matrix_dict, mapper_operated_mapping_matrix_dict)
+    # and the block layout of data_vector_mapper / curvature_matrix_mapper_diag matter
+    for geom, _, k in plan:
+        for mix in HETERO_MIXES if quick else HETERO_MIXES + ("MFG", "GMMF"):
+            for wt in (True, False):
+                if quick:
+                    out.append(("case_seq", {"geom": geom, "mix": mix, "wt": wt, "subsets": EXT_QUICK, "k": k}))
+                    out.append(("case_seq", {"geom": geom, "mix": mix, "wt": wt, "subsets": [list(s_) for s_ in HETERO_CORE], "k": k}))
+                else:
+                    ext = [list(c) for r in range(1, 6) for c in itertools.combinations(EXT_SLOTS, r)] + [list(SLOTS) + list(EXT_SLOTS)]
+                    for i in range(0, len(ext), chunk):
+                        out.append(("case_seq", {"geom": geom, "mix": mix, "wt": wt, "subsets": ext[i:i + chunk], "k": k}))
+                    for i in range(0, len(subs), 16):
+                        out.append(("case_seq", {"geom": geom, "mix": mix, "wt": wt, "subsets": subs[i:i + 16], "k": k}))
+            if not quick:
+                out.append(("case_factory", {"geom": geom, "mix": mix}))
     return out
 
 
